@@ -437,6 +437,7 @@ pub fn play(
     for (idx, step) in sc.history.iter().enumerate() {
         match step {
             Step::Write { path, bytes } => {
+                *world.touch.entry(path.clone()).or_insert(0) += 1;
                 user_write(&root, path, bytes, &mut clock);
                 world.files.insert(
                     path.clone(),
@@ -453,6 +454,7 @@ pub fn play(
             }
             Step::SetRule { path, rule } => match rule {
                 Some(r) => {
+                    *world.touch.entry(path.clone()).or_insert(0) += 1;
                     user_write(&root, path, r.to_text(&simdo).as_bytes(), &mut clock);
                     world.rules.insert(path.clone(), r.clone());
                 }
